@@ -50,6 +50,24 @@ def run():
         ms = [m(id=flip(ev['id'], rng.randrange(256))), m(pk=flip(ev['pk'], rng.randrange(256))), m(sig=flip(ev['sig'], rng.randrange(512))),
               m(t=(ev['t'] + 1) % (1 << 64)), m(t=(ev['t'] - 1) % (1 << 64)), m(kind=(ev['kind'] + 1) % 65536),
               m(content=ev['content'] + b'a'), m(tags=ev['tags'] + [[]]), m(tags=ev['tags'] + [[b'']]), m(tags=[[b'x']] + ev['tags'])]
+        # multi-byte id changes whose byte differences cancel under xor / sum (the same mask on two bytes, two bytes
+        # swapped, a rotation, every byte complemented)
+        def two(x, i, j, mask):
+            y = bytearray(x)
+            y[i] ^= mask
+            y[j] ^= mask
+            return bytes(y)
+        i_, j_ = rng.sample(range(32), 2)
+        ms += [m(id=two(ev['id'], i_, j_, rng.choice([1, 0x80, 0xff, rng.randrange(1, 256)]))),
+               m(id=ev['id'][1:] + ev['id'][:1]), m(id=bytes(255 - x for x in ev['id'])), m(id=ev['id'][::-1])]
+        sw = bytearray(ev['id'])
+        sw[i_], sw[j_] = sw[j_], sw[i_]
+        ms.append(m(id=bytes(sw)))
+        sg = bytearray(ev['sig'])
+        a_, b_ = rng.sample(range(64), 2)
+        sg[a_], sg[b_] = sg[b_], sg[a_]
+        ms.append(m(sig=bytes(sg)))
+        ms.append(m(pk=two(ev['pk'], i_, j_, rng.randrange(1, 256))))
         if ev['content']:
             k = rng.randrange(len(ev['content']))
             ms.append(m(content=ev['content'][:k] + ev['content'][k + 1:]))
